@@ -56,6 +56,11 @@ def _families(tier, seed):
     if thorough:
         fams['kv5'] = dict(hdr=('k', 'v'), syms=[(k, v) for k in K4 for v in V], maxn=5, minn=5,
                            keys=[None, 'k', ('k', 'v')], variants=base, cargs=('plain',))
+    # keys that are distinct but hash-equal in CPython (hash(-1) == hash(-2), hash(2**61-1) == hash(0)):
+    # an implementation that keeps hashes / identities instead of values is only visible with them
+    HK = [-1, -2, 0, 2 ** 61 - 1]
+    fams['hk'] = dict(hdr=('k', 'v'), syms=[(k, v) for k in HK for v in (1,)] + [(-1, 2)], maxn=3,
+                      keys=['k', None, ('k', 'v')], variants=('default',), cargs=('plain',))
     # strategy variants on a smaller family (the sort below the operators is C05's subject)
     fams['kvb'] = dict(hdr=('k', 'v'), syms=[(k, v) for k in K3 for v in V], maxn=4 if thorough else 3,
                        keys=[None, 'k'], variants=('bs1', 'bs2', 'bs1-nocache'), cargs=('plain',))
